@@ -404,67 +404,33 @@ pub fn unusual_first_use() {
     });
 }
 
-trait NextIf32<'a> {
-    fn next_if_32(&mut self, size: usize) -> Option<&'a [u8]>;
-}
-impl<'a, I: Iterator<Item = &'a [u8]>> NextIf32<'a> for I {
-    fn next_if_32(&mut self, size: usize) -> Option<&'a [u8]> {
-        if size == 32 {
-            self.next()
-        } else {
-            None
-        }
-    }
-}
-
-/// Full login through the public typestate API under a scripted RNG:
-/// draws in order: salt (32), b (32), a (32), server reconnect challenge (16).
+/// Full login through the public typestate API under a scripted RNG (scripted phase by phase: salt, b, a).
 pub fn real_login(i: &LoginInput) -> Result<(RealLogin, SrpServer, wow_srp::client::SrpClient), LoginFail> {
     if !login_inputs_taken_as_is(&i.salt, &i.b, &i.a) {
         return Err(LoginFail::Redrawn);
     }
-    // The script is laid out along the library's own draw schedule, learnt once per process from an ordinary login:
-    // the 32-byte draws are, in order, salt, b and a (registration, into_proof, client challenge - causally ordered);
-    // draws of other sizes (the reconnect challenge, whatever a later version adds, wherever it draws them) get filler.
-    static TEMPLATE: std::sync::OnceLock<Vec<usize>> = std::sync::OnceLock::new();
-    let template = TEMPLATE.get_or_init(|| {
-        let probe = LoginInput { reg_user: "probe", reg_pass: "probe", typed_user: "probe", typed_pass: "probe", salt: [0; 32], b: [0; 32], a: [0; 32], storage_roundtrip: false };
-        std::thread::scope(|sc| {
-            sc.spawn(|| {
-                verif_hooks::install_script(refmodel::ctr_bytes(5, "draw-schedule-probe", 512));
-                let ok = real_login_inner(&probe).is_ok();
-                let (_, log) = verif_hooks::finish();
-                let sizes: Vec<usize> = log.iter().map(|d| d.bytes.len()).collect();
-                if ok && sizes.iter().filter(|s| **s == 32).count() >= 3 { sizes } else { vec![32, 32, 32, 16] }
-            })
-            .join()
-            .unwrap_or_else(|_| vec![32, 32, 32, 16])
-        })
-    });
-    let mut script = Vec::with_capacity(160);
-    let mut pinned = [&i.salt[..], &i.b[..], &i.a[..]].into_iter();
-    for (k, size) in template.iter().enumerate() {
-        match (*size, pinned.next_if_32(*size)) {
-            (_, Some(p)) => script.extend_from_slice(p),
-            (n, None) => script.extend_from_slice(&refmodel::ctr_bytes(0, &format!("challenge-{k}"), n)),
-        }
-    }
-    verif_hooks::install_script(script);
+    // The RNG is scripted PHASE BY PHASE: registration gets `salt | filler`, into_proof gets `b | filler`, the client
+    // challenge gets `a | filler`, everything after that filler only. Whatever order, chunking (one 32-byte draw, four
+    // 8-byte draws ...) or additional draws (the reconnect challenge, wherever it is drawn) a version of the library
+    // uses, the first 32 bytes each phase consumes are the pinned value.
     let r = real_login_inner(i);
+    let _ = verif_hooks::finish();
+    r
+}
+
+fn phase_begin(pinned: &[u8], k: usize) {
+    let mut s = pinned.to_vec();
+    s.extend_from_slice(&refmodel::ctr_bytes(0, &format!("phase-filler-{k}"), 96));
+    verif_hooks::install_script(s);
+}
+/// Ends a phase; Err if the phase consumed fewer than the 32 pinned bytes (the value is then not the harness's).
+fn phase_end(pinned: &[u8], what: &str) -> Result<(), LoginFail> {
     let (used, log) = verif_hooks::finish();
-    let r = r?;
-    // the harness must own the three 32-byte draws that matter (salt, b, a, in this order)
-    let big: Vec<&Draw> = log.iter().filter(|d| d.bytes.len() == 32).collect();
-    let owns = big.len() >= 3 && big[0].bytes == i.salt && big[1].bytes == i.b && big[2].bytes == i.a && used >= 96;
-    if !owns {
-        return Err(LoginFail::Rng(format!(
-            "the first three RNG draws are not the scripted salt, b, a: saw {} draws / {} bytes: {:?}",
-            log.len(),
-            used,
-            log.iter().map(|d| (d.file, d.line, d.bytes.len())).collect::<Vec<_>>()
-        )));
+    let drawn: Vec<u8> = log.iter().flat_map(|d| d.bytes.iter().copied()).collect();
+    if !pinned.is_empty() && (used < pinned.len() || !drawn.starts_with(pinned)) {
+        return Err(LoginFail::Rng(format!("{what} did not draw its {} pinned bytes through the RNG seam: {} draws / {} bytes: {:?}", pinned.len(), log.len(), used, log.iter().map(|d| (d.file, d.line, d.bytes.len())).collect::<Vec<_>>())));
     }
-    Ok(r)
+    Ok(())
 }
 
 fn real_login_inner(i: &LoginInput) -> Result<(RealLogin, SrpServer, wow_srp::client::SrpClient), LoginFail> {
@@ -476,12 +442,14 @@ fn real_login_inner(i: &LoginInput) -> Result<(RealLogin, SrpServer, wow_srp::cl
     let rp = NormalizedString::new(i.reg_pass).map_err(refuse)?;
     let tu = NormalizedString::from_string(i.typed_user.to_string()).map_err(refuse)?;
     let tp = <NormalizedString as std::convert::TryFrom<String>>::try_from(i.typed_pass.to_string()).map_err(refuse)?;
+    phase_begin(&i.salt, 1);
     let verifier = catch(|| {
         // credentials reach the library as copies of what the application holds (Clone is part of their public behaviour)
         let (ru2, rp2) = (ru.clone(), rp.clone());
         drop((ru, rp));
         SrpVerifier::from_username_and_password(ru2, rp2)
     }).map_err(|m| LoginFail::Panic("register", m))?;
+    phase_end(&i.salt, "registration")?;
     let username_out = verifier.username().to_string();
     let v = *verifier.password_verifier();
     let salt = *verifier.salt();
@@ -495,13 +463,18 @@ fn real_login_inner(i: &LoginInput) -> Result<(RealLogin, SrpServer, wow_srp::cl
     // (typestate objects are kept in per-connection maps and cloned out of them): a copy is the same object
     let via_clones = i.storage_roundtrip;
     let verifier = if via_clones { verifier.clone() } else { verifier };
+    phase_begin(&i.b, 2);
     let proof = catch(move || verifier.into_proof()).map_err(|m| LoginFail::Panic("into_proof", m))?;
+    phase_end(&i.b, "into_proof")?;
     let proof = if via_clones { proof.clone() } else { proof };
     let b_pub = *proof.server_public_key();
     let salt_sent = *proof.salt();
     let bk = PublicKey::from_le_bytes(b_pub).map_err(|e| LoginFail::Refused("client-parses-B", e.to_string()))?;
+    phase_begin(&i.a, 3);
     let client = catch(move || SrpClientChallenge::new(tu, tp, GENERATOR, LARGE_SAFE_PRIME_LITTLE_ENDIAN, bk, salt_sent))
         .map_err(|m| LoginFail::Panic("client-new", m))?;
+    phase_end(&i.a, "SrpClientChallenge::new")?;
+    phase_begin(&[], 4);
     let client = if via_clones { client.clone() } else { client };
     let a_pub = *client.client_public_key();
     let m1 = *client.client_proof();
